@@ -39,6 +39,9 @@ def base_stream(rng, meta):
             fl = rng.random()
             fr = S.call_bytes(rng, rng.choice(known + [b"org.varlink.service.GetInfo", b"zz", b"no.such.M"]),
                               rng.choice([None, b"{}", J.text_of(rng, None, 1)]), fl < 0.2, 0.2 <= fl < 0.4, 0.4 <= fl < 0.5)
+        elif r < 0.575:
+            # a complete well-formed call longer than the read buffer (4096) / than a socket buffer
+            fr = S.call_bytes(rng, rng.choice(known + [b"org.varlink.service.GetInfo"]), b'{"pad":"' + b"p" * rng.choice([4000, 4090, 4200, 9000, 70000]) + b'"}', False, False, False)
         elif r < 0.62:
             # a complete well-formed value followed by more bytes inside the same frame: not valid JSON as a whole
             fr = S.call_bytes(rng, rng.choice(known + [b"org.varlink.service.GetInfo"]), rng.choice([None, b"{}"]), False, False, False) + \
@@ -61,7 +64,7 @@ def base_stream(rng, meta):
 
 def main(pid, argv):
     ck = V.Check(pid, argv)
-    ck.rule = ("cases: byte streams (valid call sequences, mutated frames, wrong-shape JSON, random bytes, unterminated tail) each cut at every byte offset "
+    ck.rule = ("cases: byte streams (valid call sequences incl. frames of 4 KiB - 70 KiB, mutated frames, wrong-shape JSON, random bytes, unterminated tail) each cut at every byte offset "
                "(all offsets for streams <= 300 bytes, sampled beyond), the client then half-closing (exact comparison with the model) or aborting (full close, "
                "log must be a prefix of the model's), 7 such connections plus one well-behaved probe connection per service run. distinct = distinct (stream, cut, "
                "mode); non-trivial = the prefix contains at least one complete frame")
@@ -82,6 +85,10 @@ def main(pid, argv):
             known = list(meta["scripts"].keys())
             data = base_stream(rng, meta)
             cuts = list(range(len(data) + 1)) if len(data) <= 300 else sorted(rng.sample(range(len(data) + 1), 300))
+            if len(data) > 300:
+                # always: the whole stream, and the stream up to the end of each frame (and one byte less)
+                ends = [i + 1 for i, ch in enumerate(data) if ch == 0]
+                cuts = sorted(set(cuts[:260]) | {len(data)} | set(ends[:20]) | {e - 1 for e in ends[:20]})
             probe_calls = [C.Call(b"org.varlink.service.GetInfo", None), C.Call(rng.choice(known), b"{}") if known else C.Call(b"zz", None)]
             probe = b"".join(S.call_bytes(rng, c.method, c.params, False, False, False, canonical=True) + b"\x00" for c in probe_calls)
             for i in range(0, len(cuts), 7):
@@ -100,7 +107,7 @@ def main(pid, argv):
     impl = C.run_impl(bins["h_svc"], lines)
     model = C.run_model(lines)
     # which frames of an aborted stream are calls that reach a handler (decoded by the model's call decoder, routed by the statement's rule)
-    abort_frames = sorted({fr for meta in metas if meta for mode, data in meta["conns"] if mode not in ("half", "probe") for fr in data.split(b"\x00")[:-1]})
+    abort_frames = sorted({fr for meta in metas if meta for mode, data in meta["conns"] if mode != "probe" for fr in data.split(b"\x00")[:-1]})
     decoded = dict(zip(abort_frames, V.run_model("call-decode", [V.hexs(fr) for fr in abort_frames]))) if abort_frames else {}
 
     def handler_calls(meta, frames):
@@ -115,6 +122,21 @@ def main(pid, argv):
             if rt[0] == "dispatch":
                 out.append("H%s.%s %s %s" % (rt[1].hex(), rt[2].hex(), f[1], "".join(f[2:5])))
         return out
+    def builtin_replies(meta, frames):
+        """number of replies the statement demands for a stream none of whose calls reaches a handler: one per call that is not oneway
+        (GetInfo, GetInterfaceDescription, MethodNotFound, InterfaceNotFound, InvalidParameter); None if a handler is involved"""
+        k = 0
+        for fr in frames:
+            d = decoded.get(fr, "ERR")
+            if d == "ERR":
+                break
+            f = d.split(" ")
+            method = b"" if f[0] == "S-" else bytes.fromhex(f[0][1:])
+            if S.route_py(meta["registry"], method)[0] == "dispatch":
+                return None
+            if f[3] != "T":
+                k += 1
+        return k
     nf = 0
     for line, meta, il, ml in zip(lines, metas, impl, model):
         iconns, isvc = C.split_result(il)
@@ -153,6 +175,17 @@ def main(pid, argv):
                     bad = "connection %d: %d calls dispatched but only %d leading frames are complete valid JSON" % (ci, len(log), n_ok)
                     break
                 if mode == "half":
+                    # statement, read directly: every complete well-formed call is dispatched, unless a handler ended the connection before
+                    strip = lambda e: " ".join(e.split(" ")[:3])
+                    want = handler_calls(meta, frames[:n_ok])
+                    if not any(e.endswith("ret1") for e in log) and [strip(e) for e in log] != want and out is not None and not out.startswith(b"TIMEOUT"):
+                        if [strip(e) for e in log] == want[:len(log)] and len(log) < len(want):
+                            bad = "connection %d: the complete well-formed call %s was never dispatched (%d of %d handler calls ran)" % (ci, want[len(log)][:80], len(log), len(want))
+                            break
+                    kb = builtin_replies(meta, frames[:n_ok])
+                    if kb is not None and out is not None and n_replies != kb:
+                        bad = "connection %d: %d complete well-formed calls (none of them oneway, none reaching a handler) but %d replies" % (ci, kb, n_replies)
+                        break
                     if iconns[ci] != mconns[ci]:
                         ck.tie_broken("connection bytes / dispatch log differ from the model", line[:1200] + " conn=%d" % ci, iconns[ci][:400], mconns[ci][:400])
                 else:
@@ -169,6 +202,28 @@ def main(pid, argv):
         if bad:
             nf += 1
             ck.fail("svc-survive", line, bad, impl=il[:1500], model=ml[:1500])
+    # a connection must not be disturbed by what another one is doing: two handlers that wait for each other (the second connection
+    # is opened while the first handler runs) can only finish if the service really serves them side by side
+    if not ck.replay or json.load(open(ck.replay))["failing"]["kind"] == "svc-side-by-side":
+        mc = [(json.load(open(ck.replay))["failing"]["case"], None)] if ck.replay else [C.meet_case(rng) for _ in range(40 if thorough else 5)]
+        mi_ = C.run_impl(bins["h_svc"], [m[0] for m in mc], jobs=2)
+        mm_ = C.run_model([m[0] for m in mc])
+        for (line, meta), il, ml in zip(mc, mi_, mm_):
+            ck.evaluations += 1
+            ck.count("mode:side-by-side")
+            ck.distinct.add(line)
+            iconns, isvc = C.split_result(il)
+            bad = None
+            if iconns is None:
+                bad = "service run failed (crash or hang): " + il[:300]
+            elif meta is not None:
+                for ci in range(len(iconns)):
+                    bad = bad or C.check_conn(meta, meta["conns"][ci][0], iconns[ci], ci)
+            if bad:
+                nf += 1
+                ck.fail("svc-side-by-side", line, "a connection was held up by another connection's running handler: " + bad[:400], impl=il[:600], model=ml[:600])
+            elif iconns != C.split_result(ml)[0]:
+                ck.tie_broken("side-by-side connections differ from the model", line[:800], il[:400], ml[:400])
     ck.extra["failing_inputs_total"] = nf
     ck.extra["service_runs"] = len(lines)
     for line, il in list(zip(lines, impl))[:: max(1, len(lines) // 4)]:
